@@ -4,7 +4,7 @@
 set -u
 cd /verif
 dirs=("$@"); [ ${#dirs[@]} -eq 0 ] && dirs=(seeded/C*)
-out=seeded/RESULTS.md
+out="${REGRESS_OUT:-seeded/RESULTS.md}"
 {
 echo "# Seeded changes (from independent sub-agents) vs. the quick check of their property"
 echo
